@@ -50,6 +50,13 @@ type Stat struct {
 	Steps         atomic.Int64
 }
 
+type FirstStat struct {
+	Paths   int64
+	Solver  float64
+	Queries int
+	Steps   int64
+}
+
 type workItem struct {
 	prefix []Decision
 	model  smt.Model
@@ -85,6 +92,7 @@ type Report struct {
 	Funcs         map[string]int64 // functions of the target executed (call counts)
 	Samples       []PathSample
 	Truncated     bool
+	ByFirst       map[int]*FirstStat // profile keyed by the first finite choice of the path
 	Decisions     int64 // symbolic/finite decisions taken over all paths
 	MaxDepth      int   // longest decision sequence
 }
@@ -345,7 +353,7 @@ func (e *Engine) Run(harness string) *Report {
 	}
 	t0 := time.Now()
 	e.rep = &Report{Harness: harness, AbortCounts: map[string]int64{}, AbortReasons: map[string]int64{},
-		Reached: map[string]int64{}, Funcs: map[string]int64{}}
+		Reached: map[string]int64{}, Funcs: map[string]int64{}, ByFirst: map[int]*FirstStat{}}
 	e.curHarness = harness
 	e.stat = Stat{}
 	e.stack = []workItem{{}}
@@ -434,6 +442,10 @@ func (e *Engine) Run(harness string) *Report {
 // runPath executes the harness once along the given decision prefix.
 func (e *Engine) runPath(i *interpreter, fn *ssa.Function, it workItem) {
 	i.resetDynamic()
+	sec0, q0 := 0.0, 0
+	if i.solver != nil {
+		sec0, q0 = i.solver.St.Seconds, i.solver.St.Queries
+	}
 	i.p = newPath(it.prefix, it.model)
 	i.hooks = nil
 	i.inHook = false
@@ -492,6 +504,17 @@ func (e *Engine) runPath(i *interpreter, fn *ssa.Function, it workItem) {
 	defer e.mu.Unlock()
 	r := e.rep
 	r.Paths++
+	if len(p.choices) > 0 && i.solver != nil {
+		fs := r.ByFirst[p.choices[0]]
+		if fs == nil {
+			fs = &FirstStat{}
+			r.ByFirst[p.choices[0]] = fs
+		}
+		fs.Paths++
+		fs.Solver += i.solver.St.Seconds - sec0
+		fs.Queries += i.solver.St.Queries - q0
+		fs.Steps += p.steps
+	}
 	r.Decisions += int64(len(p.decisions))
 	if len(p.decisions) > r.MaxDepth {
 		r.MaxDepth = len(p.decisions)
